@@ -137,6 +137,10 @@ func baseEnums() *Schema {
 			fopts = append(fopts, op("Lo", Lit(mn.String())), op("Neg", Lit("-2")))
 		}
 		s.Defs = append(s.Defs, en("F"+title(b), b, true, fopts...))
+		// two-option enums: an out-of-range value that wraps around cannot collide with another option here, so a
+		// missing range check is not hidden behind the duplicate-value check
+		s.Defs = append(s.Defs, en("TE"+title(b), b, false, op("A", Lit("1")), op("B", Lit("4"))))
+		s.Defs = append(s.Defs, en("TF"+title(b), b, true, op("A", Lit("1")), op("B", Lit("4"))))
 		uses = append(uses, fd(N("E"+title(b)), "e"+title(b)), fd(Arr(N("F"+title(b))), "f"+title(b)))
 	}
 	s.Defs = append(s.Defs, &Def{Rec: &Record{Kind: kStruct, Name: "UsesEnums", Fields: uses}})
